@@ -33,6 +33,16 @@ def handleBindgen (op : String) (args : List String) : Option String :=
         | .error _ => "panic"
       some (r ++ "\tok")
     | _, _ => none
+  | "bind.all", [_src] => some "ok\tok"
+  | "mo.label", [h] => (strOfHex h).map fun name =>
+      let r := "ok " ++ hexOfStr (moEscape name)
+      -- specification: whatever the name, its spelling is a Motoko identifier that is not a keyword
+      let good := isValidAsId (moEscape name).toList && !Gen.motokoKeywords.contains (moEscape name)
+      r ++ "\t" ++ (if good then r else "err not-an-identifier")
+  | "ts.doc", [h] => (strOfHex h).map fun line =>
+      let r := "ok " ++ hexOfStr (String.ofList (escapeDocLine line.toList))
+      -- specification: the emitted line carries the same text and cannot end the comment
+      r ++ "\t" ++ (if hasCommentEnd (escapeDocLine line.toList) then "err comment-end" else r)
   | _, _ => none
 
 end Candid.Driver
